@@ -1027,17 +1027,64 @@ theorem itemMap_eq_foldl_insert (xs : List ItemSig) : itemMap xs = xs.foldl inse
 theorem compareTraitItems_def (ts second : List ItemSig) :
     compareTraitItems ts second = compareTraitItemsLoop ts (itemMap second) := rfl
 
+/-- since /repo 133a44b BOTH blocks are turned into tables; an unsupported item of the first block aborts while its table
+    is built -/
 theorem compareInherentItems_def (fs second : List ItemSig) :
-    compareInherentItems fs second = compareInherentItemsLoop fs (itemMap second) := rfl
+    compareInherentItems fs second =
+      if fs.any (fun i => i.kind = .other) then .error .notSupported
+      else compareInherentItemsLoop (itemMap fs) (itemMap second) := rfl
+
+/-- the table of a table is the table -/
+theorem itemMap_idem (xs : List ItemSig) : itemMap (itemMap xs) = itemMap xs :=
+  itemMap_of_nodup (itemMap_nodup xs)
+
+/-- first block without unsupported items: the loop over the two tables -/
+theorem compareInherentItems_of_no_other {fs : List ItemSig} (h : fs.any (fun i => i.kind = .other) = false)
+    (second : List ItemSig) :
+    compareInherentItems fs second = compareInherentItemsLoop (itemMap fs) (itemMap second) := by
+  rw [compareInherentItems_def, h]; rfl
+
+/-- first block with an unsupported item: "Not supported", whatever the other block is -/
+theorem compareInherentItems_of_other {fs : List ItemSig} (h : fs.any (fun i => i.kind = .other) = true)
+    (second : List ItemSig) : compareInherentItems fs second = .error .notSupported := by
+  rw [compareInherentItems_def, h]; rfl
+
+/-- a clean first block (no unsupported item, no repeated name) is its own table: the loop over the block, as before
+    /repo 133a44b -/
+theorem compareInherentItems_of_clean_first {fs : List ItemSig} (hf : cleanItems fs = true) (second : List ItemSig) :
+    compareInherentItems fs second = compareInherentItemsLoop fs (itemMap second) := by
+  rw [compareInherentItems_of_no_other (clean_no_other hf), itemMap_of_clean hf]
+
+/-- an accepted comparison: the first block has no unsupported item -/
+theorem compareInherentItems_ok_no_other_first {fs second : List ItemSig}
+    (h : compareInherentItems fs second = .ok ()) : fs.any (fun i => i.kind = .other) = false := by
+  cases ho : fs.any (fun i => i.kind = .other) with
+  | false => rfl
+  | true => rw [compareInherentItems_of_other ho] at h; cases h
+
+/-- the first block counts through its table only (one entry per name: first position, last value) -/
+theorem compareInherentItems_first_table (fs second : List ItemSig) :
+    compareInherentItems fs second = compareInherentItems (itemMap fs) second := by
+  rw [compareInherentItems_def, compareInherentItems_def, itemMap_any_other, itemMap_idem]
 
 /-- on a block without repeated names the table is the block -/
 theorem compareTraitItems_of_nodup (ts : List ItemSig) {second : List ItemSig} (h : (second.map ItemSig.key).Nodup) :
     compareTraitItems ts second = compareTraitItemsLoop ts second := by
   rw [compareTraitItems_def, itemMap_of_nodup h]
 
+/-- the other block has no repeated names: its table is the block (the FIRST block still counts through its table, and
+    an unsupported item in it aborts) -/
 theorem compareInherentItems_of_nodup (fs : List ItemSig) {second : List ItemSig} (h : (second.map ItemSig.key).Nodup) :
-    compareInherentItems fs second = compareInherentItemsLoop fs second := by
+    compareInherentItems fs second =
+      if fs.any (fun i => i.kind = .other) then .error .notSupported
+      else compareInherentItemsLoop (itemMap fs) second := by
   rw [compareInherentItems_def, itemMap_of_nodup h]
+
+/-- both blocks without repeated names, the first without unsupported items: the plain loop over the blocks -/
+theorem compareInherentItems_of_clean_nodup {fs : List ItemSig} (hf : cleanItems fs = true) {second : List ItemSig}
+    (h : (second.map ItemSig.key).Nodup) :
+    compareInherentItems fs second = compareInherentItemsLoop fs second := by
+  rw [compareInherentItems_of_clean_first hf, itemMap_of_nodup h]
 
 /-- an accepted run: every entry of the table was asked for by a trait item -/
 theorem compareTraitItemsLoop_ok_covered : ∀ (ts second : List ItemSig), compareTraitItemsLoop ts second = .ok () →
@@ -1145,13 +1192,28 @@ theorem compareTraitItems_arity (ts l1 l2 : List ItemSig) (s s' : ItemSig) (hts 
   rw [compareTraitItems_of_nodup ts (by rw [hkeys]; exact hnd)]
   exact compareTraitItemsLoop_arity ts l1 l2 s s' hts hcl hok hsk hk' hi' har'
 
+/-- `compare_inherent_items` is `compare_trait_items` without defaults, with its own messages — the TABLE of the first
+    block playing the trait's item list; an unsupported item of the first block aborts before anything is compared -/
 theorem compareInherentItems_eq (fs second : List ItemSig) :
-    compareInherentItems fs second = inhResult (compareTraitItems (fs.map ItemSig.strict) second) :=
-  compareInherentItemsLoop_eq fs (itemMap second)
+    compareInherentItems fs second =
+      if fs.any (fun i => i.kind = .other) then .error .notSupported
+      else inhResult (compareTraitItems ((itemMap fs).map ItemSig.strict) second) := by
+  rw [compareInherentItems_def, compareInherentItemsLoop_eq (itemMap fs) (itemMap second)]
+  rfl
+
+theorem compareInherentItems_eq_of_no_other {fs : List ItemSig} (h : fs.any (fun i => i.kind = .other) = false)
+    (second : List ItemSig) :
+    compareInherentItems fs second = inhResult (compareTraitItems ((itemMap fs).map ItemSig.strict) second) := by
+  rw [compareInherentItems_eq, h]; rfl
+
+/-- clean first block: the statement as it was before /repo 133a44b -/
+theorem compareInherentItems_eq_of_clean {fs : List ItemSig} (hf : cleanItems fs = true) (second : List ItemSig) :
+    compareInherentItems fs second = inhResult (compareTraitItems (fs.map ItemSig.strict) second) := by
+  rw [compareInherentItems_eq_of_no_other (clean_no_other hf), itemMap_of_clean hf]
 
 theorem compareInherentItems_ok_iff_map (fs second : List ItemSig) (hf : cleanItems fs = true) :
     compareInherentItems fs second = .ok () ↔ InherentAccept fs (itemMap second) := by
-  rw [compareInherentItems_def]
+  rw [compareInherentItems_of_clean_first hf]
   by_cases ho : second.any (fun i => i.kind = .other) = true
   · constructor
     · intro h
@@ -1166,35 +1228,73 @@ theorem compareInherentItems_ok_iff_map (fs second : List ItemSig) (hf : cleanIt
       exact (cleanItems_iff.1 hf).1 t ht (hm.1.trans (by simpa using hk))
   · exact compareInherentItemsLoop_ok_iff fs _ hf (clean_itemMap (by simpa using ho))
 
+/-- acceptance with NO condition on either block: no unsupported item in the first block, and the characterisation read on
+    the two tables (the last copy of every name, on both sides) -/
+theorem compareInherentItems_ok_iff_tables (fs second : List ItemSig) :
+    compareInherentItems fs second = .ok () ↔
+      fs.any (fun i => i.kind = .other) = false ∧ InherentAccept (itemMap fs) (itemMap second) := by
+  cases ho : fs.any (fun i => i.kind = .other) with
+  | true =>
+    rw [compareInherentItems_of_other ho]
+    simp
+  | false =>
+    rw [compareInherentItems_first_table, compareInherentItems_ok_iff_map _ _ (clean_itemMap ho)]
+    simp
+
 theorem compareInherentItems_ok_iff (fs second : List ItemSig) (hf : cleanItems fs = true)
     (hs : cleanItems second = true) : compareInherentItems fs second = .ok () ↔ InherentAccept fs second := by
-  rw [compareInherentItems_def, itemMap_of_clean hs]
+  rw [compareInherentItems_of_clean_first hf, itemMap_of_clean hs]
   exact compareInherentItemsLoop_ok_iff fs second hf hs
 
 theorem compareInherentItems_missing (fs second : List ItemSig) (f : ItemSig) (hfs : cleanItems fs = true)
     (hok : compareInherentItems fs second = .ok ()) (hf : f ∈ fs) :
     compareInherentItems fs (dropItem f.kind f.ident second) = .error .notInOneImpl := by
-  rw [compareInherentItems_def, itemMap_dropItem]
+  rw [compareInherentItems_of_clean_first hfs] at hok ⊢
+  rw [itemMap_dropItem]
   exact compareInherentItemsLoop_missing fs _ f hfs hok hf
+
+/-- the same without a condition on the first block (repeated names allowed): dropping from the other block every copy of
+    a name the first block has -/
+theorem compareInherentItems_missing_any (fs second : List ItemSig) (f : ItemSig)
+    (hok : compareInherentItems fs second = .ok ()) (hf : f ∈ fs) :
+    compareInherentItems fs (dropItem f.kind f.ident second) = .error .notInOneImpl := by
+  have hno := compareInherentItems_ok_no_other_first hok
+  obtain ⟨g, hg, hgk⟩ := (itemMap_exists_iff (fun k n => k = f.kind ∧ n = f.ident) fs).2 ⟨f, hf, rfl, rfl⟩
+  rw [compareInherentItems_first_table] at hok ⊢
+  have := compareInherentItems_missing (itemMap fs) second g (clean_itemMap hno) hok hg
+  rw [hgk.1, hgk.2] at this
+  exact this
 
 theorem compareInherentItems_extra (fs l1 l2 : List ItemSig) (x : ItemSig)
     (hok : compareInherentItems fs (l1 ++ l2) = .ok ()) (hx : x.kind ≠ .other)
     (hn : ∀ f ∈ fs, ¬ (f.kind = x.kind ∧ f.ident = x.ident)) :
     compareInherentItems fs (l1 ++ x :: l2) = .error .notInOneImpl := by
-  rw [compareInherentItems_eq] at hok ⊢
+  have hno := compareInherentItems_ok_no_other_first hok
+  rw [compareInherentItems_eq_of_no_other hno] at hok ⊢
   rw [compareTraitItems_extra _ l1 l2 x (inhResult_ok.1 hok) hx (by
     intro t ht
     obtain ⟨f, hf, rfl⟩ := List.mem_map.1 ht
-    exact hn f hf)]
+    intro hfx
+    obtain ⟨f', hf', hP⟩ := (itemMap_exists_iff (fun k n => k = x.kind ∧ n = x.ident) fs).1 ⟨f, hf, hfx⟩
+    exact hn f' hf' hP)]
   rfl
 
 theorem compareInherentItems_arity (fs l1 l2 : List ItemSig) (s s' : ItemSig) (hfs : cleanItems fs = true)
     (hcl : cleanItems (l1 ++ s :: l2) = true) (hok : compareInherentItems fs (l1 ++ s :: l2) = .ok ())
     (hsk : s.kind = .const) (hk' : s'.kind = s.kind) (hi' : s'.ident = s.ident) (har : s'.arity ≠ s.arity) :
     compareInherentItems fs (l1 ++ s' :: l2) = .error .genericsMismatch := by
-  rw [compareInherentItems_eq] at hok ⊢
+  rw [compareInherentItems_eq_of_clean hfs] at hok ⊢
   rw [compareTraitItems_arity _ l1 l2 s s' (by rw [clean_strict]; exact hfs) hcl (inhResult_ok.1 hok)
     hsk hk' hi' har]
   rfl
+
+/-- the same without a condition on the first block -/
+theorem compareInherentItems_arity_any (fs l1 l2 : List ItemSig) (s s' : ItemSig)
+    (hcl : cleanItems (l1 ++ s :: l2) = true) (hok : compareInherentItems fs (l1 ++ s :: l2) = .ok ())
+    (hsk : s.kind = .const) (hk' : s'.kind = s.kind) (hi' : s'.ident = s.ident) (har : s'.arity ≠ s.arity) :
+    compareInherentItems fs (l1 ++ s' :: l2) = .error .genericsMismatch := by
+  have hno := compareInherentItems_ok_no_other_first hok
+  rw [compareInherentItems_first_table] at hok ⊢
+  exact compareInherentItems_arity (itemMap fs) l1 l2 s s' (clean_itemMap hno) hcl hok hsk hk' hi' har
 
 end DI
